@@ -147,6 +147,9 @@ func Run(p *Program, mode Mode) (*History, *vfile.File) {
 	// ---- set-up (single threaded)
 	if !p.MemOnly {
 		r.f = vfile.New("conc")
+		// the lazy-read monitor (C19) is active for concurrent executions too
+		r.f.TrackValues = true
+		r.f.KeyOnlyTags = map[string]bool{"Visit(k)": true, "MinMax(k)": true, "Set": true, "Delete": true}
 		r.f.SetTagFunc(func() string {
 			if t, ok := r.tags.Load(sched.Goid()); ok {
 				return t.(string)
@@ -355,7 +358,11 @@ func (r *runner) worker(id int, steps []Step) {
 			ev.Found = v != nil
 			ev.Val = append([]byte{}, v...)
 		case RMin, RMax:
-			r.setTag("MinMax")
+			if st.WithVal {
+				r.setTag("MinMax(kv)")
+			} else {
+				r.setTag("MinMax(k)")
+			}
 			ev.Call = r.now()
 			var it *gkvlite.Item
 			var err error
@@ -386,7 +393,11 @@ func (r *runner) worker(id int, steps []Step) {
 			}
 			ev.N, ev.B = n, b
 		case RVisit:
-			r.setTag("Visit")
+			if st.WithVal {
+				r.setTag("Visit(kv)")
+			} else {
+				r.setTag("Visit(k)")
+			}
 			cnt := 0
 			vis := func(i *gkvlite.Item) bool {
 				kv := model.KV{Key: append([]byte{}, i.Key...), Prio: i.Priority}
